@@ -41,6 +41,8 @@ for i in $(seq 1 $N); do
   git -C /repo worktree remove --force $L/repo$i >/dev/null 2>&1
 done
 git -C /repo worktree prune
+# every seeded change leaves its own compiled packages in Go's build cache: drop what the lanes left behind
+find "$(go env GOCACHE)" -type f -mmin +75 -delete 2>/dev/null
 python3 $V/tools/seedmatrix.py --merge
 rm -rf $L
 echo "lanes done: ${#names[@]} seeds"
